@@ -1063,7 +1063,7 @@ func isEmptyOrNonASCIIEdge(cond ssa.Value, neg bool, par *ssa.Parameter) bool {
 // reachesAvoiding: target is reachable from the entry without passing through block `avoid`, not counting edges
 // for which skipEdge holds.
 func reachesAvoiding(f *ssa.Function, target, avoid *ssa.BasicBlock, skipEdge func(b *ssa.BasicBlock, succIdx int) bool) bool {
-	if target == avoid {
+	if target == avoid && target != nil {
 		return false
 	}
 	seen := map[*ssa.BasicBlock]bool{}
@@ -1073,7 +1073,7 @@ func reachesAvoiding(f *ssa.Function, target, avoid *ssa.BasicBlock, skipEdge fu
 			return false
 		}
 		seen[b] = true
-		if b == target {
+		if b == target || (target == nil && len(b.Succs) == 0) { // nil target: any function exit
 			return true
 		}
 		for i, s := range b.Succs {
